@@ -28,6 +28,18 @@ CHECKS = {
  "C04": dict(technique="TLA+ judge over recorded hasher byte streams of all reachable states (stream is an injective function of the abstract state) + real BFS/DFS unique counts vs TLC's distinct-state count",
              text="For every reachable state of generated actor systems the byte stream fed to the Hasher is recorded; TLC judges that equal abstract states give equal streams and distinct ones distinct streams, and that the real checkers count exactly the distinct states TLC finds on the specification.",
              note="64-bit collisions of the final ahash are out of scope; value-level enumeration of containers is in the thorough tier (Identity.tla)", ref="4/C04"),
+ "C08": dict(technique="TLA+ definition-level spec of linearizability (existence of a legal total order by exhaustive search, Consistency.tla); TLC enumerates all histories within bounds (MCHistories) which are replayed into the real tester and judged by TLC",
+             text="Every history within the bounds (2-3 threads, up to 5-7 events, register / write-once register / stack alphabets incl. mismatched return kinds and ill-formed steps) is generated by TLC, replayed into LinearizabilityTester, and its verdict, returned serialization, Ok/Err results and len are judged by TLC against the definition; exhaustive within the bounds.",
+             note="bounded histories; theorems LinImpliesSC and prefix-closure are checked on the same enumeration to validate the definition", ref="4/C08"),
+ "C14": dict(technique="same pipeline as C08 with the sequential-consistency definition (program order only) + clone isolation observations judged by TLC",
+             text="Exhaustive (within bounds) agreement of SequentialConsistencyTester with the definition-level spec, validity of its serializations, lin => sc on the real testers for every history, rejection and stickiness of ill-formed histories, and value semantics (extending a clone leaves the parent observably unchanged; clone-and-extend equals full replay).",
+             note="bounded histories", ref="4/C14"),
+ "C20": dict(technique="TLC-checked theorems of VectorClock.tla over the whole finite domain + pointwise agreement of the real functions with the spec on the same domain (TLC judge); DenseNatMap.tla likewise",
+             text="The algebraic laws are proved by TLC on the specification for all clocks with <=3-4 components <=2; the real partial_cmp/eq/hash/merge_max/incremented agree with the spec on every pair of that domain, so the laws hold for the implementation there. DenseNatMap construction (all key orders, gaps, duplicates), get/iter/insert and rewrite under every plan are judged pointwise.",
+             note="exhaustive only within the component bounds", ref="4/C20"),
+ "C10": dict(technique="TLC-checked theorems of Symmetry.tla + TLC judge of from_values_to_sort/reindex/rewrite and of representative() on every reachable state of real actor systems + real symmetric DFS/simulation runs judged against the unreduced graph semantics",
+             text="Stable-sort plan, reindex and 13 Rewrite impls are judged on all vectors with ties / all plans of size <=4; representative() of every recorded state of generated actor systems equals Permute(stable plan) of ActorSystem.tla; spawn_dfs with symmetry on generated symmetric process-vector models gives exact always/sometimes verdicts, covers every orbit, evaluates no more states than the unreduced graph has, and reports real paths.",
+             note="table systems carry ids only in envelope endpoints; symmetric models have 2-3 processes", ref="4/C10"),
  "C11": dict(technique="TLA+ observation validation against Graph!EvCex (maximal-path semantics), exactness on generated forests",
              text="Reported eventually-counterexamples are judged by TLC against the existence of a maximal in-boundary path avoiding the condition (terminal or cycle in the non-sat region); on forest-shaped graphs the converse is judged too.",
              note="trusts TLC; forests are recognised by Graph!IsForest", ref="4/C11"),
